@@ -40,7 +40,7 @@ pub enum TimeoutCase {
     /// document limit: None = default (900 s), Some(0) = unlimited
     Virtual { total: Option<u64>, steps: Vec<Step> },
     /// real-time replay through the binary; limits in milliseconds; `slow` = index of the slow test (sleep 30) if any
-    Real { tests: usize, slow: Option<usize>, per_test_ms: Option<u64>, total_ms: Option<u64>, via_flag: bool, cram: bool },
+    Real { tests: usize, slow: Option<usize>, per_test_ms: Option<u64>, total_ms: Option<u64>, via_flag: bool, cram: bool, #[serde(default)] wait_ms: Option<u64> },
 }
 
 thread_local! {
@@ -189,7 +189,12 @@ impl Engine for VcTimeout {
                             if slow.is_none() && (tests != 2) {
                                 continue;
                             }
-                            real.push(TimeoutCase::Real { tests, slow, per_test_ms, total_ms, via_flag, cram });
+                            real.push(TimeoutCase::Real { tests, slow, per_test_ms, total_ms, via_flag, cram, wait_ms: None });
+                            // the document limit elapses while the slow test case is still waiting (`wait` longer than the limit):
+                            // the command then starts with no time left and has to time out at once
+                            if !cram && slow.is_some() && total_ms.is_some() && per_test_ms != Some(400) {
+                                real.push(TimeoutCase::Real { tests, slow, per_test_ms, total_ms, via_flag, cram, wait_ms: Some(2000) });
+                            }
                         }
                     }
                 }
@@ -198,7 +203,7 @@ impl Engine for VcTimeout {
         if tier == Tier::Quick {
             // the replays that distinguish the orderings: slow test in first/last position, every limit combination
             real.retain(|c| match c {
-                TimeoutCase::Real { tests, slow, .. } => *tests == 2 && (*slow == Some(0) || *slow == Some(1) || slow.is_none()),
+                TimeoutCase::Real { tests, slow, wait_ms, .. } => *tests == 2 && (*slow == Some(0) || *slow == Some(1) || slow.is_none()) && (wait_ms.is_none() || *slow == Some(1)),
                 _ => true,
             });
         }
@@ -331,7 +336,7 @@ impl Engine for VcTimeout {
                     }
                 }
             }
-            TimeoutCase::Real { tests, slow, per_test_ms, total_ms, via_flag, cram } => {
+            TimeoutCase::Real { tests, slow, per_test_ms, total_ms, via_flag, cram, wait_ms } => {
                 res.nontrivial.push(("C14", key));
                 res.counters.push(("real_time_replays", 1));
                 let sb = Sandbox::new();
@@ -346,10 +351,14 @@ impl Engine for VcTimeout {
                     if *cram {
                         doc.push_str(&format!("Test {i}\n  $ {cmd}\n\n"));
                     } else {
-                        let cfg = match (is_slow, per_test_ms) {
-                            (true, Some(ms)) => format!(" {{timeout: {ms}ms}}"),
-                            _ => String::new(),
-                        };
+                        let mut parts = vec![];
+                        if let (true, Some(ms)) = (is_slow, per_test_ms) {
+                            parts.push(format!("timeout: {ms}ms"));
+                        }
+                        if let (true, Some(ms)) = (is_slow, wait_ms) {
+                            parts.push(format!("wait: {ms}ms"));
+                        }
+                        let cfg = if parts.is_empty() { String::new() } else { format!(" {{{}}}", parts.join(", ")) };
                         doc.push_str(&format!("# Test {i}\n\n```scrut{cfg}\n$ {cmd}\n```\n\n"));
                     }
                 }
@@ -375,7 +384,7 @@ impl Engine for VcTimeout {
                         }
                     }
                 });
-                let describe = || format!("{} document with {tests} test(s), slow test at {slow:?}, per-test limit {per_test_ms:?} ms, document limit {total_ms:?} ms ({})", if *cram { "cram" } else { "markdown" }, if *via_flag { "--timeout-seconds" } else { "front-matter" });
+                let describe = || format!("{} document with {tests} test(s), slow test at {slow:?} (wait before it: {wait_ms:?} ms), per-test limit {per_test_ms:?} ms, document limit {total_ms:?} ms ({})", if *cram { "cram" } else { "markdown" }, if *via_flag { "--timeout-seconds" } else { "front-matter" });
                 // expected: which limit applies to the slow test
                 let limit_ms: Option<u64> = match (slow, per_test_ms, total_ms) {
                     (None, _, _) => None,
@@ -383,6 +392,11 @@ impl Engine for VcTimeout {
                     (Some(_), Some(p), None) => Some(*p),
                     (Some(_), None, Some(t)) => Some(*t),
                     (Some(_), None, None) => None,
+                };
+                // a wait longer than the document limit: the limit elapses during the wait
+                let limit_ms = match (wait_ms, total_ms, limit_ms) {
+                    (Some(w), Some(t), Some(_)) if w >= t => Some(*t),
+                    _ => limit_ms,
                 };
                 let kinds = run.json_kinds();
                 res.outcome.push(("C14", hash64(&("real", run.status, kinds.as_ref().ok().cloned()))));
@@ -444,7 +458,7 @@ impl Engine for VcTimeout {
     fn size(&self, case: &TimeoutCase) -> usize {
         match case {
             TimeoutCase::Virtual { total, steps } => steps.len() * 100 + steps.iter().map(|s| s.d as usize + s.timeout.unwrap_or(0) as usize + s.wait.unwrap_or(0) as usize * 3).sum::<usize>() + total.unwrap_or(0) as usize,
-            TimeoutCase::Real { tests, .. } => 10_000 + tests,
+            TimeoutCase::Real { tests, wait_ms, .. } => 10_000 + tests + wait_ms.is_some() as usize * 10,
         }
     }
 }
